@@ -567,7 +567,7 @@ def search_files(ck: Ck) -> None:
     fmts = sorted(f.name for f in rw._SAVE if f in rw._LOAD)
     ck.extra['writable_formats'] = fmts
     sizes = [(1 << a, 1 << b) for a in range(7) for b in range(7)]
-    rounds = ck.budget(8, 60)
+    rounds = ck.budget(8, 200)
     configs = corpus_configs()
     n_corpus = len(configs)
     for r in range(rounds):
